@@ -1355,4 +1355,456 @@ Section Handler.
         apply Inv_adv. apply Inv_adv. apply Inv_called. exact I.
       + eapply Reach_Ends_some; [exact R1|]. apply Ends_Any_Some. exact SRS.
   Qed.
+
+  (** ** the key part of an object member (nothing for arrays) *)
+  Definition keypart (obj : bool) (l : list byte) : option (list byte * nat) :=
+    if obj then
+      match string_tok l with
+      | None => None
+      | Some n =>
+        let r := skipn n l in
+        let w := ws r in
+        match skipn w r with
+        | c :: r1 => if isb 58 c then Some (firstn (n - 2) (skipn 1 l), (n + w + 1 + ws r1)%nat) else None
+        | [] => None
+        end
+      end
+    else Some ([], 0%nat).
+
+  (** [q] behaves like the position after a comma on the first byte of [l], which is not white space *)
+  Definition IStartH (hc : ctx) (q : sstate) (l : list byte) : Prop :=
+    seof q = eof_units hc /\
+    forall b r, l = b :: r -> is_ws b = false /\ strans false q b = strans false (hc, PNext) b.
+
+  Lemma Ends_Of_Some : forall c q s, EndsS q s (ErrOf c s) -> EndsS q s ErrSome.
+  Proof. intros c q s E. eapply Ends_weaken; [|exact E]. intros o (p & e & s' & -> & _). exists p, e, s'. reflexivity. Qed.
+
+  Lemma hws_stay : forall hc p, hctx hc -> (p = PStart \/ p = PAfter \/ p = PNext \/ p = PColon \/ p = PVal) ->
+    forall b, is_ws b = true -> strans false (hc, p) b = ([], Some (hc, p)).
+  Proof. intros hc p [->| ->] [->|[->|[->|[->| ->]]]] b W; cbn; rewrite W; reflexivity. Qed.
+
+  Lemma hkey_go : forall t b, match t with TStr | TEsc | TU4 | TU3 | TU2 | TU1 => true | _ => false end = true ->
+    match tok_step t b with
+    | TGo t' => strans false (CHObj, PKey t) b = ([], Some (CHObj, PKey t'))
+    | TEnd => strans false (CHObj, PKey t) b = ([], Some (CHObj, PKeyEnd))
+    | TErr => strans false (CHObj, PKey t) b = fail CHObj
+    | TStop => True
+    end.
+  Proof. intros t b D. unfold strans. destruct (tok_step t b); auto. Qed.
+
+  Lemma hkeypart : forall hc q s l, hctx hc -> AtS s l -> InvS s [] -> IStartH hc q l ->
+    match keypart (is_objctx hc) l with
+    | Some (kb, kl) =>
+      (kl <= length l)%nat /\
+      exists s' qv, ReachS q s qv s' /\ s_p s' = s_p s + Z.of_nat kl /\ InvS s' [] /\ s_calls s' = s_calls s /\
+                    (if is_objctx hc then slice data (s_fs s' + 1) (s_fe s' - 1) = Some kb else kb = []) /\
+                    seof qv = eof_units hc /\
+                    (forall b r, skipn kl l = b :: r -> is_ws b = false /\ strans false qv b = value_start false hc b)
+    | None => EndsS q s ErrSome
+    end.
+  Proof.
+    intros hc q s l [->| ->] H I (SE & ST).
+    - (* arrays: no key *)
+      cbn. split; [lia|]. exists s, q. split; [apply Reach_refl|]. split; [lia|].
+      split; [exact I|]. split; [reflexivity|]. split; [reflexivity|]. split; [exact SE|].
+      intros b r E0. destruct (ST b r E0) as [W T]. split; [exact W|]. rewrite T. cbn. rewrite W. reflexivity.
+    - (* objects: "key" : *)
+      cbn [is_objctx keypart]. unfold string_tok.
+      destruct l as [|b r0]; [apply (Ends_Of_Some CHObj); apply fail_eof; [exact H|exact SE]|].
+      destruct (ST b r0 eq_refl) as [W T].
+      assert (T' : strans false q b = if isb 34 b then ([UFieldStart], Some (CHObj, PKey TStr)) else fail CHObj).
+      { rewrite T. cbn. rewrite W. reflexivity. }
+      destruct (isb 34 b) eqn:Q.
+      2:{ apply (Ends_Of_Some CHObj). eapply fail_step; [exact H|exact T']. }
+      set (s1 := set_fs s (s_p s)).
+      assert (R1 : ReachS q s (CHObj, PKey TStr) (adv s1 1))
+        by (eapply Reach_units; [exact H|exact T'|reflexivity|cbn; lia]).
+      assert (H1 : AtS (adv s1 1) r0) by (apply (At_adv1 data s1 b r0); exact H).
+      pose proof (string_run md false start data h CHObj (fun t => (CHObj, PKey t)) (CHObj, PKeyEnd)
+                    (fun t => match t with TStr | TEsc | TU4 | TU3 | TU2 | TU1 => true | _ => false end)
+                    hkey_go (fun t _ => eq_refl) ltac:(repeat split; reflexivity) (length r0) r0 (adv s1 1) (le_n _) H1) as SR.
+      destruct (string_body r0) as [k|] eqn:SB; cbn [option_map].
+      2:{ eapply Reach_Ends_some; [exact R1|]. apply (Ends_Of_Some CHObj). exact SR. }
+      destruct SR as [R2 KL]. rewrite adv_adv in R2.
+      destruct (string_body_last r0 k SB) as (k' & qq & rest & -> & _ & _).
+      change (skipn (S (S k')) (b :: r0)) with (skipn (S k') r0).
+      pose proof (At_adv data _ r0 (S k') H1 KL) as H2. rewrite adv_adv in H2.
+      set (l2 := skipn (S k') r0) in *. set (w := ws l2).
+      assert (RK : ReachS q s (CHObj, PKeyEnd) (adv s1 (1 + S k'))) by (eapply Reach_trans; eauto).
+      assert (LL2 : (length l2 + S k' = length r0)%nat) by (unfold l2; rewrite skipn_length; lia).
+      (* from just after the key to the colon: the first byte records the end of the key *)
+      set (s2 := adv s1 (1 + S k')) in *. set (s3 := set_fe s2 (s_p s2)).
+      assert (KE : forall c0 rr, l2 = c0 :: rr ->
+                 strans false (CHObj, PKeyEnd) c0 =
+                 if is_ws c0 then ([UFieldEnd], Some (CHObj, PColon))
+                 else if isb 58 c0 then ([UFieldEnd], Some (CHObj, PVal)) else fail CHObj)
+        by (intros c0 rr _; reflexivity).
+      assert (FIN : forall s4 r1 n4, ReachS q s (CHObj, PVal) s4 -> AtS s4 r1 -> s_p s4 = s_p s + Z.of_nat n4 ->
+                 s_fs s4 = s_p s -> s_fe s4 = s_p s + Z.of_nat (S (S k')) -> InvS s4 [] -> s_calls s4 = s_calls s ->
+                 skipn n4 (b :: r0) = r1 -> (n4 <= length (b :: r0))%nat ->
+                 (n4 + ws r1 <= length (b :: r0))%nat /\
+                 exists s' qv, ReachS q s qv s' /\ s_p s' = s_p s + Z.of_nat (n4 + ws r1) /\ InvS s' [] /\ s_calls s' = s_calls s /\
+                   slice data (s_fs s' + 1) (s_fe s' - 1) = Some (firstn (S (S k') - 2) (skipn 1 (b :: r0))) /\
+                   seof qv = eof_units CHObj /\
+                   (forall b0 r, skipn (n4 + ws r1) (b :: r0) = b0 :: r -> is_ws b0 = false /\ strans false qv b0 = value_start false CHObj b0)).
+      { intros s4 r1 n4 R4 H4 P4 FS FE I4 C4 SK N4.
+        pose proof (ws_loop md false start data h (CHObj, PVal) (hws_stay CHObj PVal ltac:(right; reflexivity) ltac:(auto 6)) r1 s4 H4) as R5.
+        pose proof (ws_le r1) as WL. assert (LR1 : length r1 = (length (b :: r0) - n4)%nat) by (rewrite <- SK, skipn_length; reflexivity).
+        split; [lia|]. exists (adv s4 (ws r1)), (CHObj, PVal).
+        split; [eapply Reach_trans; eauto|]. split; [rewrite s_p_adv, P4; lia|]. split; [apply Inv_adv; exact I4|].
+        split; [exact C4|]. split; [|split; [reflexivity|]].
+        - cbn [s_fs s_fe adv set_p]. rewrite FS, FE. unfold slice.
+          pose proof H as [[P0 P1] SKD]. pose proof (AtP_len data _ _ H) as LEN0. rewrite len_cons in LEN0.
+          assert (KLZ : Z.of_nat (S k') <= len r0) by (unfold len; lia).
+          assert (C1 : (0 <=? s_p s + 1) && (s_p s + 1 <=? s_p s + Z.of_nat (S (S k')) - 1) &&
+                       (s_p s + Z.of_nat (S (S k')) - 1 <=? len data) = true).
+          { repeat (apply andb_true_iff; split); apply Z.leb_le; lia. }
+          rewrite C1. f_equal. f_equal; [lia|].
+          replace (Z.to_nat (s_p s + 1)) with (1 + Z.to_nat (s_p s))%nat by lia.
+          rewrite <- skipn_skipn, SKD. reflexivity.
+        - intros b0 r E0. rewrite Nat.add_comm, <- skipn_skipn, SK in E0.
+          pose proof (ws_next _ _ _ E0) as W0. split; [exact W0|]. cbn. rewrite W0. reflexivity. }
+      destruct l2 as [|c0 rr] eqn:L2.
+      { cbn. eapply Reach_Ends_some; [exact RK|]. apply (Ends_Of_Some CHObj). apply fail_eof; [exact H2|reflexivity]. }
+      specialize (KE c0 rr eq_refl).
+      assert (SK2 : skipn (S (S k')) (b :: r0) = c0 :: rr) by (cbn [skipn]; fold l2; exact L2).
+      destruct (is_ws c0) eqn:W0.
+      + (* white space before the colon *)
+        assert (R3 : ReachS (CHObj, PKeyEnd) s2 (CHObj, PColon) (adv s3 1))
+          by (eapply Reach_units; [exact H2|exact KE|reflexivity|cbn; lia]).
+        assert (H3 : AtS (adv s3 1) rr) by (apply (At_adv1 data s3 c0 rr); exact H2).
+        pose proof (ws_loop md false start data h (CHObj, PColon) (hws_stay CHObj PColon ltac:(right; reflexivity) ltac:(auto 6)) rr _ H3) as R4.
+        rewrite adv_adv in R4.
+        unfold w. rewrite (ws_cons_true c0 rr W0). cbn [skipn].
+        pose proof (At_adv data _ rr (ws rr) H3 (ws_le rr)) as H4. rewrite adv_adv in H4.
+        assert (RC : ReachS q s (CHObj, PColon) (adv s3 (1 + ws rr))).
+        { eapply Reach_trans; [exact RK|]. eapply Reach_trans; [exact R3|exact R4]. }
+        destruct (skipn (ws rr) rr) as [|c1 r1] eqn:K1.
+        { eapply Reach_Ends_some; [exact RC|]. apply (Ends_Of_Some CHObj). apply fail_eof; [exact H4|reflexivity]. }
+        pose proof (ws_next _ _ _ K1) as W1.
+        assert (TC : strans false (CHObj, PColon) c1 = if isb 58 c1 then ([], Some (CHObj, PVal)) else fail CHObj)
+          by (cbn; rewrite W1; reflexivity).
+        destruct (isb 58 c1) eqn:CO.
+        2:{ eapply Reach_Ends_some; [exact RC|]. apply (Ends_Of_Some CHObj). eapply fail_step; [exact H4|exact TC]. }
+        assert (R5 : ReachS (CHObj, PColon) (adv s3 (1 + ws rr)) (CHObj, PVal) (adv (adv s3 (1 + ws rr)) 1))
+          by (eapply Reach_silent; [exact H4|exact TC]).
+        pose proof (At_adv1 data _ _ _ H4) as H5.
+        pose proof (ws_le rr) as WLR. cbn [length] in LL2.
+        assert (LK1 : (length (c1 :: r1) + ws rr = length rr)%nat) by (rewrite <- K1, skipn_length; lia). cbn [length] in LK1.
+        replace (S (S k') + S (ws rr) + 1 + ws r1)%nat with ((S (S k') + S (ws rr) + 1) + ws r1)%nat by lia.
+        apply (FIN (adv (adv s3 (1 + ws rr)) 1) r1 (S (S k') + S (ws rr) + 1)%nat).
+        * eapply Reach_trans; [exact RC|exact R5].
+        * exact H5.
+        * unfold s3, s2, s1. cbn. lia.
+        * reflexivity.
+        * unfold s3, s2, s1. cbn. lia.
+        * unfold s3, s2, s1. destruct I as (L & TP & CP & EE & MD0). unfold Inv. cbn. auto.
+        * reflexivity.
+        * replace (S (S k') + S (ws rr) + 1)%nat with (1 + (ws rr + (1 + S (S k'))))%nat by lia.
+          rewrite <- (skipn_skipn 1), <- (skipn_skipn (ws rr)), <- (skipn_skipn 1 (S (S k'))), SK2. cbn [skipn]. rewrite K1. reflexivity.
+        * cbn [length]. lia.
+      + (* the colon follows the key directly *)
+        unfold w. rewrite (ws_cons_false c0 rr W0). cbn [skipn].
+        destruct (isb 58 c0) eqn:CO.
+        2:{ eapply Reach_Ends_some; [exact RK|]. apply (Ends_Of_Some CHObj). eapply fail_step; [exact H2|exact KE]. }
+        assert (R3 : ReachS (CHObj, PKeyEnd) s2 (CHObj, PVal) (adv s3 1))
+          by (eapply Reach_units; [exact H2|exact KE|reflexivity|cbn; lia]).
+        assert (H3 : AtS (adv s3 1) rr) by (apply (At_adv1 data s3 c0 rr); exact H2).
+        cbn [length] in LL2.
+        replace (S (S k') + 0 + 1 + ws rr)%nat with ((S (S k') + 0 + 1) + ws rr)%nat by lia.
+        apply (FIN (adv s3 1) rr (S (S k') + 0 + 1)%nat).
+        * eapply Reach_trans; [exact RK|exact R3].
+        * exact H3.
+        * unfold s3, s2, s1. cbn. lia.
+        * reflexivity.
+        * unfold s3, s2, s1. cbn. lia.
+        * unfold s3, s2, s1. destruct I as (L & TP & CP & EE & MD0). unfold Inv. cbn. auto.
+        * reflexivity.
+        * replace (S (S k') + 0 + 1)%nat with (1 + S (S k'))%nat by lia.
+          rewrite <- (skipn_skipn 1 (S (S k'))), SK2. reflexivity.
+        * cbn [length]. lia.
+  Qed.
+
+  (** ** the members, one after the other *)
+  Definition callpair (c : call) : Z * list byte := (c_p c, c_key c).
+
+  Lemma members_from_S : forall k obj off l,
+    members_from refval (S k) obj off l =
+    match keypart obj l with
+    | None => None
+    | Some (kbytes, kl) =>
+      let lv := skipn kl l in
+      match refval lv with
+      | None => None
+      | Some n =>
+        let here := (Z.of_nat (off + kl), kbytes) in
+        let r := skipn n lv in
+        let w := ws r in
+        match skipn w r with
+        | c :: r1 =>
+          if isb 44 c then
+            let w1 := ws r1 in
+            match members_from refval k obj (off + kl + n + w + 1 + w1) (skipn w1 r1) with
+            | Some (ms, e) => Some (here :: ms, e)
+            | None => None
+            end
+          else if isb (if obj then 125 else 93) c then Some ([here], Z.of_nat (off + kl + n + w + 1))
+          else None
+        | [] => None
+        end
+      end
+    end.
+  Proof. intros k obj off l. destruct obj; reflexivity. Qed.
+
+  Lemma hafter_step : forall hc b, hctx hc -> is_ws b = false ->
+    strans false (hc, PAfter) b =
+    if isb 44 b then ([], Some (hc, PNext))
+    else if isb (if is_objctx hc then 125 else 93) b then ([], Some (hc, PDone)) else fail hc.
+  Proof. intros hc b [->| ->] W; cbn; rewrite W; reflexivity. Qed.
+
+  Lemma hmembers : forall hc, hctx hc -> forall k l s off q,
+    (length l < k)%nat -> AtS s l -> s_p s = Z.of_nat off -> InvS s [] -> IStartH hc q l ->
+    match members_from refval k (is_objctx hc) off l with
+    | Some (ms, e) => exists s', ReachS q s (hc, PDone) s' /\ s_p s' = e /\ s_err s' = None /\
+                                 map callpair (rev (s_calls s')) = map callpair (rev (s_calls s)) ++ ms /\
+                                 exists l', AtS s' l'
+    | None => EndsS q s ErrSome
+    end.
+  Proof.
+    intros hc HC. induction k as [|k IH]; intros l s off q LK H PO I IS; [lia|].
+    rewrite members_from_S.
+      pose proof (hkeypart hc q s l HC H I IS) as KP.
+      destruct (keypart (is_objctx hc) l) as [[kb kl]|]; [|exact KP].
+      destruct KP as (KL & s1 & qv & R1 & P1 & I1 & C1 & SL & SE1 & VS1).
+      pose proof (At_move data s s1 l kl H P1 KL) as H1. cbn zeta.
+      destruct (skipn kl l) as [|b r] eqn:LV.
+      { unfold F. cbn [value_len Nat.add]. replace (length data + 2)%nat with (S (length data + 1)) by lia. cbn [value_len].
+        eapply Reach_Ends_some; [exact R1|]. apply (Ends_Of_Some hc). apply fail_eof; [exact H1|exact SE1]. }
+      destruct (VS1 b r eq_refl) as [W VS].
+      pose proof (hvalue hc qv s1 b r kb HC H1 W VS I1 SL) as HV.
+      destruct (refval (b :: r)) as [n|]; [|eapply Reach_Ends_some; [exact R1|exact HV]].
+      destruct HV as (N & s2 & R2 & P2 & I2 & C2).
+      pose proof (At_move data s1 s2 (b :: r) n H1 P2 N) as H2.
+      set (l2 := skipn n (b :: r)) in *. set (w := ws l2).
+      pose proof (ws_loop md false start data h (hc, PAfter) (hws_stay hc PAfter HC ltac:(auto)) l2 s2 H2) as R3. fold w in R3.
+      pose proof (At_adv data s2 l2 w H2 (ws_le l2)) as H3.
+      assert (RA : ReachS q s (hc, PAfter) (adv s2 w)).
+      { eapply Reach_trans; [exact R1|]. eapply Reach_trans; [exact R2|exact R3]. }
+      assert (CALLS : map callpair (rev (s_calls s2)) = map callpair (rev (s_calls s)) ++ [(Z.of_nat (off + kl), kb)]).
+      { rewrite C2, C1. cbn [rev]. rewrite map_app. unfold callpair at 3. cbn [map c_p c_key]. rewrite P1, PO, Nat2Z.inj_add. reflexivity. }
+      destruct (skipn w l2) as [|c0 r1] eqn:K.
+      { eapply Reach_Ends_some; [exact RA|]. apply (Ends_Of_Some hc). apply fail_eof; [exact H3|destruct HC as [->| ->]; reflexivity]. }
+      pose proof (ws_next _ _ _ K) as NW. pose proof (hafter_step hc c0 HC NW) as AS.
+      destruct (isb 44 c0) eqn:CM.
+      + assert (R4 : ReachS (hc, PAfter) (adv s2 w) (hc, PNext) (adv (adv s2 w) 1)) by (eapply Reach_silent; [exact H3|exact AS]).
+        pose proof (At_adv1 data _ _ _ H3) as H4.
+        set (w1 := ws r1).
+        pose proof (ws_loop md false start data h (hc, PNext) (hws_stay hc PNext HC ltac:(auto)) r1 _ H4) as R5. fold w1 in R5.
+        pose proof (At_adv data _ r1 w1 H4 (ws_le r1)) as H5.
+        assert (IS5 : IStartH hc (hc, PNext) (skipn w1 r1)).
+        { split; [destruct HC as [->| ->]; reflexivity|]. intros b0 r0 E0. split; [|reflexivity]. eapply ws_next. exact E0. }
+        assert (LK5 : (length (skipn w1 r1) < k)%nat).
+        { assert (A1 : length (skipn kl l) = length (b :: r)) by (rewrite LV; reflexivity).
+          assert (A2 : length (skipn w l2) = length (c0 :: r1)) by (rewrite K; reflexivity).
+          unfold l2 in A2. rewrite !skipn_length in *. cbn [length] in *. lia. }
+        specialize (IH (skipn w1 r1) (adv (adv (adv s2 w) 1) w1) (off + kl + n + w + 1 + w1)%nat (hc, PNext) LK5 H5
+                       ltac:(rewrite !s_p_adv, P2, P1, PO; lia) ltac:(repeat apply Inv_adv; exact I2) IS5).
+        destruct (members_from refval k (is_objctx hc) (off + kl + n + w + 1 + w1) (skipn w1 r1)) as [[ms e]|].
+        * destruct IH as (s' & R' & P' & E' & C' & AT').
+          exists s'. split; [|split; [exact P'|split; [exact E'|split; [|exact AT']]]].
+          -- eapply Reach_trans; [exact RA|]. eapply Reach_trans; [exact R4|]. eapply Reach_trans; [exact R5|exact R'].
+          -- rewrite C'. cbn [s_calls adv set_p]. rewrite CALLS, <- app_assoc. reflexivity.
+        * eapply Reach_Ends_some; [exact RA|]. eapply Reach_Ends_some; [exact R4|]. eapply Reach_Ends_some; [exact R5|exact IH].
+      + destruct (isb (if is_objctx hc then 125 else 93) c0) eqn:CL.
+        * assert (R4 : ReachS (hc, PAfter) (adv s2 w) (hc, PDone) (adv (adv s2 w) 1)) by (eapply Reach_silent; [exact H3|exact AS]).
+          exists (adv (adv s2 w) 1). split; [eapply Reach_trans; eauto|].
+          split; [rewrite !s_p_adv, P2, P1, PO; lia|]. split; [eapply Inv_err; exact I2|].
+          split; [cbn [s_calls adv set_p]; exact CALLS|]. exists r1. apply (At_adv1 data _ _ _ H3).
+        * eapply Reach_Ends_some; [exact RA|]. apply (Ends_Of_Some hc). eapply fail_step; [exact H3|exact AS].
+  Qed.
 End Handler.
+
+(** HandleArrayValues / HandleObjectValues over their specification machines, for every handler that
+    answers each call with 0 or with the exact length of the value it was given and reports no error:
+    the run succeeds exactly when the reference finds an array / object (or null); the offset is the
+    one after the closing bracket and the handler was called exactly for the members the reference
+    lists, in order: at the first byte of each member value, with the raw key bytes (C07). *)
+Theorem members_spec_correct : forall (obj : bool) data h stack dst,
+  len data <= maxint -> well_behaved data h ->
+  match members_ref obj data with
+  | Some (ms, e) => exists s, prun 10000 (if obj then hobj_spec else harr_spec) data h stack dst = ODone e None s /\
+                              map callpair (rev (s_calls s)) = ms
+  | None => exists p e s, prun 10000 (if obj then hobj_spec else harr_spec) data h stack dst = ODone p (Some e) s
+  end.
+Proof.
+  intros obj data h stack dst LEN WB.
+  set (top := if obj then CHOTop else CHATop). set (hc := if obj then CHObj else CHArr).
+  set (ob := if obj then 123 else 91). set (cl := if obj then 125 else 93).
+  set (q0 := (top, PStart)). set (md := len data).
+  assert (MEQ : (if obj then hobj_spec else harr_spec) = spec_machine false q0) by (destruct obj; reflexivity).
+  rewrite MEQ. rewrite (prun_md_irrelevant 10000 md).
+  assert (HC : hctx hc) by (destruct obj; [right|left]; reflexivity).
+  assert (OBJ : is_objctx hc = obj) by (destruct obj; reflexivity).
+  assert (T0 : forall b, is_ws b = true -> strans false q0 b = ([], Some q0)).
+  { intros b W. destruct obj; cbn; rewrite W; reflexivity. }
+  assert (T1 : forall b, is_ws b = false -> strans false q0 b =
+               if isb ob b then ([], Some (hc, PStart)) else if isb 110 b then ([], Some (top, PTok T_n)) else fail top).
+  { intros b W. destruct obj; cbn; rewrite W; reflexivity. }
+  assert (T2 : forall b, is_ws b = false -> strans false (hc, PStart) b =
+               if isb cl b then ([], Some (hc, PDone)) else strans false (hc, PNext) b).
+  { intros b W. destruct obj; cbn; rewrite W; unfold is, isb; cbn;
+      destruct (bz b =? _); try reflexivity. }
+  set (s0 := init_st stack dst).
+  pose proof (At_init data stack dst) as H0. fold s0 in H0.
+  pose proof (ws_loop md false q0 data h q0 T0 data s0 H0) as R0.
+  pose proof (At_adv data s0 data (ws data) H0 (ws_le data)) as H1.
+  set (w := ws data) in *.
+  assert (I1 : Inv md false (adv s0 w) []).
+  { unfold Inv. cbn. unfold len. cbn. repeat split; auto; try lia; try (intro; discriminate). }
+  assert (OK : forall (s' : st) l' ms e, At data s' l' -> s_err s' = None -> s_p s' = e ->
+               map callpair (rev (s_calls s')) = ms -> forall cd,
+               Reach md false q0 data h q0 (adv s0 w) (cd, PDone) s' ->
+               exists s, prun md (spec_machine false q0) data h stack dst = ODone e None s /\ map callpair (rev (s_calls s)) = ms).
+  { intros s' l' ms e H' E' P' C' cd R'.
+    assert (E : Ends md false q0 data h q0 s0 (fun o => o = ODone (s_p s') (s_err s') s')).
+    { eapply Reach_Ends; [exact R0|]. eapply Reach_Ends; [exact R'|]. eapply done_ends. exact H'. }
+    apply (Ends_prun md false q0 data h stack dst) in E. exists s'. rewrite <- P', <- E'. auto. }
+  assert (BAD : Ends md false q0 data h q0 (adv s0 w) ErrSome ->
+                exists p e s, prun md (spec_machine false q0) data h stack dst = ODone p (Some e) s).
+  { intros E. assert (E2 : Ends md false q0 data h q0 s0 ErrSome) by (eapply Reach_Ends; [exact R0|exact E]).
+    apply (Ends_prun md false q0 data h stack dst) in E2. exact E2. }
+  unfold members_ref. fold w.
+  destruct (skipn w data) as [|b r] eqn:L.
+  { cbn. apply BAD. apply (Ends_Of_Some data h q0 top). apply fail_eof; [exact H1|destruct obj; reflexivity]. }
+  pose proof (ws_next _ _ _ L) as NW. pose proof (T1 b NW) as TB.
+  pose proof (At_adv1 data _ _ _ H1) as H2.
+  change (if obj then 123 else 91) with ob. change (if obj then 125 else 93) with cl.
+  unfold lit_ref. rewrite is_prefix_z. change (map bz lit_null) with (110 :: lit_rest T_n). cbn [zprefix].
+  change (bz b =? 110) with (isb 110 b).
+  destruct (isb ob b) eqn:OB.
+  - (* the opening bracket *)
+    assert (N110 : isb 110 b = false).
+    { apply Z.eqb_eq in OB. unfold isb. rewrite OB. destruct obj; reflexivity. }
+    rewrite N110. cbn [andb].
+    assert (R1 : Reach md false q0 data h q0 (adv s0 w) (hc, PStart) (adv (adv s0 w) 1)) by (eapply Reach_silent; [exact H1|exact TB]).
+    set (w1 := ws r).
+    pose proof (ws_loop md false q0 data h (hc, PStart) (hws_stay hc PStart HC ltac:(auto)) r _ H2) as R2. fold w1 in R2.
+    pose proof (At_adv data _ r w1 H2 (ws_le r)) as H3.
+    assert (RS : Reach md false q0 data h q0 (adv s0 w) (hc, PStart) (adv (adv (adv s0 w) 1) w1)) by (eapply Reach_trans; eauto).
+    destruct (skipn w1 r) as [|c r1] eqn:K.
+    { apply BAD. eapply Reach_Ends; [exact RS|]. apply (Ends_Of_Some data h q0 hc). apply fail_eof; [exact H3|destruct obj; reflexivity]. }
+    pose proof (ws_next _ _ _ K) as NWc. pose proof (T2 c NWc) as TC.
+    destruct (isb cl c) eqn:CL.
+    + (* empty *)
+      apply (OK (adv (adv (adv (adv s0 w) 1) w1) 1) r1 [] _ (At_adv1 data _ _ _ H3) eq_refl) with (cd := hc).
+      * rewrite !s_p_adv. cbn [s_p s0 init_st]. lia.
+      * reflexivity.
+      * eapply Reach_trans; [exact RS|]. eapply Reach_silent; [exact H3|exact TC].
+    + (* members *)
+      assert (IS : IStartH hc (hc, PStart) (c :: r1)).
+      { split; [destruct obj; reflexivity|]. intros b0 r0 E0. inversion E0; subst b0 r0. split; [exact NWc|exact TC]. }
+      pose proof (hmembers data h q0 LEN WB hc HC (S (length data)) (c :: r1) (adv (adv (adv s0 w) 1) w1) (w + 1 + w1)%nat (hc, PStart)) as HM.
+      assert (LK : (length (c :: r1) < S (length data))%nat).
+      { rewrite <- K, skipn_length. assert (A : length (skipn w data) = length (b :: r)) by (rewrite L; reflexivity).
+        rewrite skipn_length in A. cbn [length] in A. lia. }
+      specialize (HM LK H3 ltac:(rewrite !s_p_adv; cbn [s_p s0 init_st]; lia) ltac:(repeat apply Inv_adv; exact I1) IS).
+      rewrite OBJ in HM. fold md in HM.
+      change (Z.of_nat (length data)) with md.
+      destruct (members_from (value_len md (length data + 2) 0) (S (length data)) obj (w + 1 + w1) (c :: r1)) as [[ms e]|].
+      * destruct HM as (s' & R' & P' & E' & C' & (l' & AT')).
+        apply (OK s' l' ms e AT' E' P' C' hc).
+        eapply Reach_trans; [exact RS|exact R'].
+      * apply BAD. eapply Reach_Ends; [exact RS|exact HM].
+  - destruct (isb 110 b) eqn:N1; cbn [andb].
+    + (* "null" *)
+      assert (R1 : Reach md false q0 data h q0 (adv s0 w) (top, PTok T_n) (adv (adv s0 w) 1)) by (eapply Reach_silent; [exact H1|exact TB]).
+      assert (AFT : after top = PDone) by (destruct obj; reflexivity).
+      pose proof (lit_ok md false q0 data h top (fun t => (top, PTok t)) (top, PDone) pdom) as LO.
+      specialize (LO ltac:(intros t b0 D; rewrite <- AFT; apply ptok_go; [apply negb_true_iff; exact D|destruct obj; reflexivity])
+                     (pdom_eof top) lit_not_complete T_n eq_refl _ r H2).
+      destruct (zprefix (lit_rest T_n) r) eqn:ZP.
+      * apply zprefix_len in ZP.
+        apply (OK (adv (adv (adv s0 w) 1) (length (lit_rest T_n))) (skipn 3 r) [] _ (At_adv data _ r 3 H2 ZP) eq_refl) with (cd := top).
+        -- rewrite !s_p_adv. cbn [s_p s0 init_st length lit_rest lit_null]. lia.
+        -- reflexivity.
+        -- eapply Reach_trans; [exact R1|exact LO].
+      * apply BAD. eapply Reach_Ends; [exact R1|]. apply (Ends_Of_Some data h q0 top). exact LO.
+    + apply BAD. apply (Ends_Of_Some data h q0 top). eapply fail_step; [exact H1|exact TB].
+Qed.
+
+(** on success the calls are exactly the members of the reference, once each, in document order *)
+Corollary members_called_once : forall (obj : bool) data h stack dst ms e,
+  len data <= maxint -> well_behaved data h -> members_ref obj data = Some (ms, e) ->
+  exists s, prun 10000 (if obj then hobj_spec else harr_spec) data h stack dst = ODone e None s /\
+            length (s_calls s) = length ms /\
+            forall i m, nth_error ms i = Some m ->
+              exists c, nth_error (rev (s_calls s)) i = Some c /\ c_p c = fst m /\ c_key c = snd m.
+Proof.
+  intros obj data h stack dst ms e LEN WB MR.
+  pose proof (members_spec_correct obj data h stack dst LEN WB) as M. rewrite MR in M.
+  destruct M as (s & E & C). exists s. split; [exact E|]. split.
+  - rewrite <- C, map_length, rev_length. reflexivity.
+  - intros i m NM. rewrite <- C in NM. rewrite nth_error_map in NM.
+    destruct (nth_error (rev (s_calls s)) i) as [c|]; [|discriminate]. cbn in NM. inversion NM.
+    exists c. auto.
+Qed.
+
+(** { "k" : [1], "b":"x" } with a handler that answers 0, and with one that answers the exact length *)
+Definition ex_obj : list byte :=
+  [x7b; x20; x22; x6b; x22; x20; x3a; x20; x5b; x31; x5d; x2c; x20; x22; x62; x22; x3a; x22; x78; x22; x20; x7d].
+Definition h_zero : handler := fun _ => {| h_pp := 0; h_err := None; h_havoc := [] |}.
+Definition h_exact (data : list byte) : handler := fun calls =>
+  match calls with
+  | c :: _ => {| h_pp := match skip_ref (skipn (Z.to_nat (c_p c)) data) with Some n => n | None => 0 end;
+                 h_err := None; h_havoc := [] |}
+  | [] => {| h_pp := 0; h_err := None; h_havoc := [] |}
+  end.
+Lemma h_zero_wb : forall data, well_behaved data h_zero.
+Proof. intros data c calls. cbn. auto. Qed.
+Lemma h_exact_wb : forall data, well_behaved data (h_exact data).
+Proof. intros data c calls. cbn. split; [reflexivity|]. split; [reflexivity|]. destruct (skip_ref _); auto. Qed.
+
+Example members_spec_ex :
+  members_ref true ex_obj = Some ([(8, [x6b]); (17, [x62])], 22) /\
+  (exists s, prun 10000 hobj_spec ex_obj h_zero [] [] = ODone 22 None s /\ map callpair (rev (s_calls s)) = [(8, [x6b]); (17, [x62])]) /\
+  (exists s, prun 10000 hobj_spec ex_obj (h_exact ex_obj) [] [] = ODone 22 None s /\ map callpair (rev (s_calls s)) = [(8, [x6b]); (17, [x62])]).
+Proof. split; [vm_compute; reflexivity|]. split; eexists; vm_compute; split; reflexivity. Qed.
+Print Assumptions members_spec_correct.
+Print Assumptions members_called_once.
+
+(** what [members_ref] lists: every listed offset is the first byte of a value the reference accepts *)
+Lemma members_from_values : forall value data k obj off l ms e, l = skipn off data ->
+  members_from value k obj off l = Some (ms, e) ->
+  Forall (fun m => exists n, value (skipn (Z.to_nat (fst m)) data) = Some n) ms.
+Proof.
+  intros value data. induction k as [|k IH]; intros obj off l ms e EL M; [discriminate|].
+  cbn [members_from] in M.
+  destruct (if obj then _ else Some ([], 0%nat)) as [[kb kl]|]; [|discriminate].
+  destruct (value (skipn kl l)) as [n|] eqn:V; [|discriminate].
+  assert (HERE : exists n0, value (skipn (Z.to_nat (fst (Z.of_nat (off + kl), kb))) data) = Some n0).
+  { exists n. cbn [fst]. rewrite Nat2Z.id. rewrite <- V, EL, skipn_skipn. f_equal. f_equal. lia. }
+  set (r := skipn n (skipn kl l)) in *. set (w := ws r) in *.
+  destruct (skipn w r) as [|c r1] eqn:K; [discriminate|].
+  destruct (isb 44 c).
+  - set (w1 := ws r1) in *.
+    destruct (members_from value k obj (off + kl + n + w + 1 + w1) (skipn w1 r1)) as [[ms' e']|] eqn:M'; [|discriminate].
+    inversion M; subst ms e. constructor; [exact HERE|].
+    apply (IH obj (off + kl + n + w + 1 + w1)%nat (skipn w1 r1) ms' e'); [|exact M'].
+    assert (K1 : skipn 1 (skipn w r) = r1) by (rewrite K; reflexivity).
+    rewrite <- K1. unfold r. rewrite EL, !skipn_skipn. f_equal. lia.
+  - destruct (isb (if obj then 125%Z else 93%Z) c); [|discriminate]. inversion M. constructor; [exact HERE|constructor].
+Qed.
+
+Lemma members_ref_values : forall obj data ms e, members_ref obj data = Some (ms, e) ->
+  Forall (fun m => exists n, value_len (len data) (length data + 2) 0 (skipn (Z.to_nat (fst m)) data) = Some n) ms.
+Proof.
+  intros obj data ms e M. unfold members_ref in M.
+  destruct (lit_ref lit_null (skipn (ws data) data)); [inversion M; constructor|].
+  destruct (skipn (ws data) data) as [|b r] eqn:L; [discriminate|].
+  destruct (isb (if obj then 123%Z else 91%Z) b); [|discriminate].
+  destruct (skipn (ws r) r) as [|c r1] eqn:K; [discriminate|].
+  destruct (isb (if obj then 125%Z else 93%Z) c); [inversion M; constructor|].
+  eapply members_from_values; [|exact M].
+  rewrite <- K. assert (L1 : skipn 1 (skipn (ws data) data) = r) by (rewrite L; reflexivity).
+  rewrite <- L1, !skipn_skipn. f_equal. lia.
+Qed.
